@@ -34,9 +34,16 @@ impl Guard8 {
         let buf = vec![CANARY; start + len + tail];
         Guard8 { buf, start, len }
     }
+    /// A *source* buffer. What lies behind it is chosen to make an over-read
+    /// visible and deterministic: continuation bytes (0xA0), which complete an
+    /// unfinished UTF-8 / multi-byte sequence instead of being rejected.
     pub fn from(src: &[u8], off: usize) -> Guard8 {
         let mut g = Guard8::new(src.len(), off);
         g.slice_mut().copy_from_slice(src);
+        let end = g.start + g.len;
+        for b in g.buf[end..].iter_mut() {
+            *b = 0xA0;
+        }
         g
     }
     #[inline]
@@ -67,9 +74,15 @@ impl Guard16 {
         let buf = vec![CANARY16; start + len + tail];
         Guard16 { buf, start, len }
     }
+    /// A *source* buffer; low surrogates behind it (they would complete a
+    /// pair that an over-reading converter looks for).
     pub fn from(src: &[u16], off: usize) -> Guard16 {
         let mut g = Guard16::new(src.len(), off);
         g.slice_mut().copy_from_slice(src);
+        let end = g.start + g.len;
+        for b in g.buf[end..].iter_mut() {
+            *b = 0xDCA0;
+        }
         g
     }
     #[inline]
